@@ -32,6 +32,22 @@ CLAIMED = {
    text="Machine-checked proof over a model of TreeLayout that threads the per-node scratch state (offset, thread) explicitly, so repeated calls on the same nodes are expressible. Unbounded: every node's level is its depth (y = depth x unit) and children are placed symmetrically around their parent. Bounded, by evaluation over enumerations PROVED complete (the property's own quantifier is bounded): every full binary tree with at most 13 nodes is laid out with children strictly on their sides, parents centred, each level left-to-right at least one unit apart, repeatably and mirror-symmetrically; every shape with at most 8 nodes is laid out identically by three successive calls and its reported bounds are the bounding box. Known findings exhibited as theorems: L2 (one-child nodes) and L3 (full trees from 15 nodes on).",
    note="Trusted: Coq kernel (vm_compute for the enumerations); extraction + driver; the `layout` correspondence (coordinates and bounds of 3 repeated calls compared exactly on all shapes up to 7/9 nodes, full trees up to 13/17 nodes, random shapes up to 80 nodes). Beyond the stated bounds only the differential check speaks.",
    design="4 C18", technique="Coq proof: structural lemmas + reflection over complete enumerations (vm_compute) + differential correspondence"),
+ "C01": dict(
+   text="Machine-checked proof over the model of all nine rules (eleven configurations): for every rule except balanced move (which applies only below an equation, C02), every option, every tree and every node where the rule reports applicable, the rewritten WHOLE tree refines the original over the real-number denotation (wherever the original is defined, the result is defined with the same value; hence equal wherever both are defined). Proved per classifier arrangement (associative 2, commutative 3+flip, constant arithmetic 8 incl. exact folding of + - * / and powers against the real power function, factor-out 6 positions with the factor table proved to hold factor pairs, distribute, inverse 2, restate 7, variable multiply 3 with the power law incl. definedness) plus congruence of refinement through any context. Unbounded in tree size, coefficients, exponents, assignments.",
+   note="Trusted: Coq kernel; the Reals axioms of the standard library (sig_not_dec, sig_forall_dec, functional_extensionality_dep, classic), nothing else; Sem.v as the meaning of expressions; the `rules` correspondence (model vs implementation on every node x 11 configurations of thousands of trees incl. every rule-test arrangement and near-miss perturbations) and the exact-rational value oracle. Folds with irrational value (c1^c2, non-integral c2) are outside the exact model (marked RInexact, compared with tolerance).",
+   design="4 C01", technique="Coq proof (local soundness per rule arrangement + congruence, over Reals) + differential correspondence + exact value oracle"),
+ "C02": dict(
+   text="Machine-checked proof: for every equation l = r, every rule (balanced move, the flip of the sides, any rewrite inside a side), every option and node where it reports applicable, the result is an equation l' = r' and wherever l, r are defined so are l', r' and (l = r) holds exactly when (l' = r') does (eq_refines, which implies 'same solutions wherever both are defined' and composes). Balanced move: the addend case is proved by induction along the spine of additions (the moved term is a TOP-LEVEL addend - theorem; never out of a product, quotient, power, negation or subtrahend), the coefficient case divides by a constant proved non-zero.",
+   note="Trusted as C01. Oracle assignments include secant-solved roots of both equations so that one of them actually holds.",
+   design="4 C02", technique="Coq proof (eq_refines per step; spine induction for balanced move) + differential correspondence + solution-set oracle"),
+ "C08": dict(
+   text="Machine-checked schema theorems over the model: for ALL operands/coefficients/variables/exponents and an ARBITRARY context (root, path), each documented form is accepted and rewritten to the documented shape: swap a+b / a*b (and the chain regrouping), (a+b)+c <-> a+(b+c), c1 op c2 -> constant, factor-out shape with the extracted number proved a common factor of both coefficients, a(b+c) -> ab+ac, a/b -> a*(1/b), a-b -> a+(-b) and back, x^a*x^b -> x^(a+b) (implicit 1s), balanced add / multiply; and the documented non-applicable forms (a-b, a/b not commutable, unlike variables, constants not factored unless enabled) are refused. The suite instantiates every schema independently and compares up to order/grouping of + and * and the factor pulled out. Known findings: zero coefficients (F0) and the undocumented context restriction of restate-subtraction (F1).",
+   note="Trusted as C01 (most theorems closed under the global context; the common-factor theorem uses the Reals axioms).",
+   design="4 C08", technique="Coq proof (symbolic schema theorems) + differential correspondence + independent schema oracle"),
+ "C09": dict(
+   text="Machine-checked proof by induction over the step list: any finite sequence of applicable rewrites (run) from an expression refines it (same value wherever the start is defined); from an equation, every sequence incl. balanced moves ends in an equation with the same solution set (eq_refines is transitive). The model's trees are immutable, so earlier states are untouched by construction; for the implementation the `walks` suite applies every step to a clone_from_root copy, audits the heap, re-parses str(root), compares values with the START expression and verifies all earlier roots bit-identical at the end.",
+   note="Trusted as C01; 'prints and re-parses' is checked by the suite's round-trip oracle (C04), not proved here.",
+   design="4 C09", technique="Coq proof (induction over rewrite sequences on top of C01/C02) + differential correspondence on random walks"),
 }
 WIP = "model and theorems not built yet in this round (work in progress; planned, see DESIGN.md section 4)"
 def main():
